@@ -172,6 +172,7 @@ void exec_case(const Case &c) {
     label(shapes[shape >= 0 && shape <= 6 ? shape : 0]);
 
     vsched::on_deadlock = on_deadlock; vsched::on_park = on_park; vsched::on_wake = on_wake; vsched::on_switch = on_switch; vsched::on_step_limit = on_steps;
+    vsched::set_mode_pct(hget(c, 2, 0) == 1); if (hget(c, 2, 0) == 1) label("pct_schedule");
     vsched::begin(c.sched.data(), c.sched.size());
     {
         auto resp = std::make_unique<Resource>();
